@@ -19,7 +19,7 @@ RULE = ("correspondence: generated documents (explicit targets via (name)=, attr
         "the intended hit evaluated on the published doctree (docutils; one-document Sphinx projects in the thorough tier; a "
         "three-document Sphinx project for the project-wide fallthrough in every tier). "
         "non-trivial = a link that hits an explicit target that shadows a slug, a duplicate-title slug, or is missing")
-TRUSTED = ["coq/Refs/Anchors.v is a hand transcription of ResolveAnchorIds.apply (checked by correspondence, not proved)",
+TRUSTED = ["ResolveAnchorIds.apply is translated from the source on every run (gen/c09_src.py on gen/c09_pywalk.py -> coq/Gen/AnchorsSrc.v) and proved equal to the hand-written model coq/Refs/Anchors.v (C09_apply_src_is_apply); trusted there: the domain mapping = coq/Refs/AnchorsOps.v + the table in the docstring of gen/c09_src.py (document.nametypes/nameids/ids -> association lists with d[k] -> KeyError, d.get -> option; isinstance(n, nodes.X|Y) -> kind tests; n['refid'], n['names'][0], n[0] -> raising accessors; clean_astext(n) -> n_astext n; the reference being rewritten -> the local record st with refnode['refid']= / refnode += inline / create_warning(.., append_to=refnode) -> set_refid / add_inline / warn_append (nothing at all when suppressed); findall(document)(nodes.reference) -> the id_link reference list; the Sphinx bookkeeping statements (inner_node ..) accepted by exact text only; end of an iteration -> one output record), and the walker's control-flow translation (continuation duplicated into if-branches, `is None: continue` -> match, for -> fold_res, first-match loop -> find, locals renamed to canonical names by what they are assigned from)",
            "docutils registries (nametypes/nameids/ids), PropagateTargets and findall order are taken as found (read from the real document)",
            "the harness wraps ResolveAnchorIds.apply in-process to snapshot its input and output"]
 ORACLES = {"O_normalizeLink": "markdown_it normalizeLink is only passed through (fallback refid of a missing target); supplied to the model as a table from the real function",
@@ -37,7 +37,9 @@ LEVEL_TEXT = ("Proof (Coq) over a Gallina transcription of ResolveAnchorIds.appl
               "'#name' (C09_implicit_text); under Sphinx a link the document cannot resolve becomes one pending_xref at the link's line "
               "and, composed with the C12 model of MystReferenceResolver, warns exactly once iff nothing in the project resolves it "
               "(C09_sphinx_fallthrough). Refuted/open: an empty link to a missing target shows no text (C09_missing_empty_text_refuted). "
-              "The model is tied to transforms.py by differential correspondence on every run.")
+              "Every run regenerates the Gallina definition of ResolveAnchorIds.apply from transforms.py and re-proves it equal to the model "
+              "(C09_apply_src_is_apply), so C09_resolution_order_src / C09_missing_warns_once_src / C09_implicit_text_src hold for the code as it "
+              "is now; the differential correspondence ties the registries (inputs) and the mapping to the running code.")
 LEVEL_NOTE = ("Trusted: Coq kernel; hand transcription (checked by correspondence); docutils registries and traversal order are inputs "
               "(read from the real document), not modelled; Sphinx: the resolver after the pending_xref is the C12 builder's model "
               "(coq/XRef/XRefModel.v, tied to the code by the C12 correspondence), composed here, its Sphinx-side oracles (other domains, "
